@@ -37,12 +37,16 @@ def gen_multi_case(rng):
             "constructor_filter": rng.choice(FILTER_CHOICES),
             # the filter may be replaced through the setter before episode 1 or 2
             "setter": rng.choice([None, None, [rng.choice([0, 1]), rng.choice(FILTER_CHOICES[1:])]]),
+            # ... or in the middle of an episode: [episode, after how many steps, new filter]
+            "setter_mid": rng.choice([None, None, [rng.choice([0, 1, 2]), rng.choice([1, 2, 3]),
+                                                   rng.choice(FILTER_CHOICES[1:])]]),
             "episodes": 3}
 
 
 def multi_env_episodes(ctx, case):
-    """Yields (event, run, info) with event in {"reset", "step"}; `run.filter_names` is the filter
-    that must be in force, `info` the dictionary returned by env.step (None after a reset)."""
+    """Yields (event, run, info) with event in {"reset", "step", "filter_changed"}; `run.filter_names`
+    is the filter that must be in force, `info` the dictionary returned by env.step (None after a
+    reset or a filter change)."""
     from job_shop_lib.dispatching import DispatcherObserverConfig
     from job_shop_lib.generation import GeneralInstanceGenerator
     from job_shop_lib.reinforcement_learning import MultiJobShopGraphEnv
@@ -70,7 +74,18 @@ def multi_env_episodes(ctx, case):
         ctx.count("multi_env_episodes")
         yield "reset", run, None
         done = False
+        steps = 0
+        mid = case.get("setter_mid")
         while not done:
+            if mid and mid[0] == ep and mid[1] == steps:
+                current = mid[2]
+                env.ready_operations_filter = gen.make_filter(_spec(current))
+                run2 = Run(inst, _spec(current), dispatcher=env.dispatcher, instance=env.dispatcher.instance)
+                run2.r = run.r
+                run = run2
+                ctx.count("filter_changed_through_the_env_setter_mid_episode")
+                yield "filter_changed", run, None
+            steps += 1
             avail = env.dispatcher.available_operations() or env.dispatcher.raw_ready_operations()
             op = rng.choice(avail)
             m = rng.choice(op.machines)
